@@ -69,6 +69,16 @@ func genC02(r *gen.Rand, maxLayers int) *C02Case {
 	listAttrs := r.Chance(0.25)
 	metaAttrs := r.Chance(0.25)
 	oddDocs := r.Chance(0.15) // documents that are not maps: empty, a list, a scalar
+	// typed scalars that only a TOML decoder (or a caller who decoded a file
+	// itself) leaves in a tree; through MergeDocument only: in TOML *files*
+	// every integer arrives as int64, which bkl treats differently from int in
+	// several places ($repeat, list $match) — cross-format equality is C04's
+	// subject, not this check's
+	dateAttrs := !c.FileRoute && r.Chance(0.15)
+	dates := []any{
+		wire.Opaque{Type: "toml.LocalDate", Repr: "2024-06-01"}, wire.Opaque{Type: "toml.LocalDate", Repr: "2024-06-02"},
+		wire.Opaque{Type: "toml.LocalDateTime", Repr: "2024-06-01T10:00:00"}, wire.Opaque{Type: "toml.LocalTime", Repr: "10:00:00"},
+	}
 	tagShift := r.Intn(4)
 	var baseTrees []map[string]any
 	var prev []string
@@ -102,6 +112,9 @@ func genC02(r *gen.Rand, maxLayers int) *C02Case {
 		if bigIDs {
 			// 64-bit identifiers that differ only in their low bits
 			doc["uid"] = 1180591620717411300 + i*3
+		}
+		if dateAttrs {
+			doc["released"] = dates[(i+tagShift)%len(dates)]
 		}
 		if listAttrs {
 			// list-valued attributes for list patterns (never edited by layers)
@@ -220,6 +233,7 @@ func genC02(r *gen.Rand, maxLayers int) *C02Case {
 				delete(patch, "name")
 				delete(patch, "kind")
 				delete(patch, "uid")
+				delete(patch, "released")
 				delete(patch, "tags")
 				delete(patch, "ports")
 				delete(patch, "meta")
@@ -252,6 +266,13 @@ func genC02(r *gen.Rand, maxLayers int) *C02Case {
 					map[string]any{"ports": []any{map[string]any{"pname": "app"}, map[string]any{"pname": "app"}, map[string]any{"image": "redis"}}},
 					map[string]any{"tags": []any{"dev"}, "$invert": true},
 				})
+			} else if dateAttrs && r.Chance(0.6) {
+				d := gen.PickAny(r, dates)
+				if r.Chance(0.3) {
+					patch["$match"] = map[string]any{"released": d, "$invert": true}
+				} else {
+					patch["$match"] = map[string]any{"released": d}
+				}
 			} else if bigIDs && r.Chance(0.5) {
 				uid := 1180591620717411300 + r.Intn(nBase)*3
 				if r.Chance(0.3) {
